@@ -1115,7 +1115,12 @@ func (s *vdkScen) doExec(st vdkStep) {
 	if out == "none" {
 		out = st.Out
 	}
-	s.emit("Exec", s.observe(vlib.E{"x": vlib.E{"k": "exec", "out": out}, "scripted": st.Out, "res": "ok", "err": ""}))
+	x := vlib.E{"k": "exec", "out": out}
+	if out == "complete" && wasExecuting && f2 != nil {
+		// the qualified set is the kyber protocol's (environment's) choice: a peer that was too slow is evicted
+		x["qual"] = s.project(f2)["fg"]
+	}
+	s.emit("Exec", s.observe(vlib.E{"x": x, "scripted": st.Out, "res": "ok", "err": ""}))
 }
 
 func vdkRunScenario(ids *vdkIDs, fx *vdkFixture, sc vdkScript, base string, short time.Duration, slow int) *vdkScen {
